@@ -2,9 +2,11 @@
 (***************************************************************************)
 (* Validation of analysis chains driven on the real code beyond the        *)
 (* exhaustive bounds.  One record per run:                                 *)
-(*   [e |-> "out", ch, N, pairs, drv, bs, out]   results of one driver     *)
-(*        (drv: run | split | fill_compute_seq | fill_seq; bs for split)   *)
-(*   [e |-> "reach", ch, N, pairs, reach]        values that were filled   *)
+(*   [e |-> "out", ch, N, fk, drv, bs, out]   results of one driver     *)
+(*        (drv: run | split | fill_compute_seq | fill_seq; bs and place    *)
+(*        for split: with sibling branches the results of the chain's      *)
+(*        branch are recorded); fk = "bare" | "pairs" | "ctx"              *)
+(*   [e |-> "reach", ch, N, fk, reach]        values that were filled   *)
 (*        into the accumulator (recording proxy) by FillComputeSeq         *)
 (* Whatever the driver and bufsize, the results must be ChainSem and the   *)
 (* accumulator must have received Reach.  A run that raised is recorded    *)
@@ -17,8 +19,8 @@ VARIABLE i
 ToSet(sq) == {sq[k] : k \in 1..Len(sq)}
 NormVal(v) == [d |-> v.d, c |-> ToSet(v.c), h |-> v.h]
 NormOut(o) == [k \in 1..Len(o) |-> NormVal(o[k])]
-Ok(r) == \/ r.e = "out" /\ NormOut(r.out) = ChainSem(r.ch, FlowOf(r.N, r.pairs))
-         \/ r.e = "reach" /\ NormOut(r.reach) = Reach(r.ch, FlowOf(r.N, r.pairs))
+Ok(r) == \/ r.e = "out" /\ NormOut(r.out) = ChainSem(r.ch, FlowOf(r.N, r.fk))
+         \/ r.e = "reach" /\ NormOut(r.reach) = Reach(r.ch, FlowOf(r.N, r.fk))
 Init == i = 1
 Next == i <= Len(Trace) /\ Ok(Trace[i]) /\ i' = i + 1
 Spec == Init /\ [][Next]_i
